@@ -156,4 +156,17 @@ theorem R2_reverse_reverse (w : List α) : w.reverse.reverse = w :=
 theorem X1_language_ext {α : Type u} (X Y : Language α) (h : ∀ w, w ∈ X ↔ w ∈ Y) : X = Y :=
   Set.ext h
 
+/-- (F7) cardinality of a difference with a subset (SMT axiom `card-diff-subset`). -/
+theorem F7_ncard_diff_subset {β : Type u} (A B : Set β) (hA : A.Finite) (h : B ⊆ A) :
+    (A \ B).ncard = A.ncard - B.ncard :=
+  Set.ncard_sdiff h (hA.subset h)
+
+/-- (F8) cardinality of a union is at most the sum (SMT axiom `card-union-le`). -/
+theorem F8_ncard_union_le {β : Type u} (A B : Set β) : (A ∪ B).ncard ≤ A.ncard + B.ncard :=
+  Set.ncard_union_le A B
+
+/-- (F9) a union is finite iff both parts are (SMT axiom `fin-union`). -/
+theorem F9_finite_union {β : Type u} (A B : Set β) : (A ∪ B).Finite ↔ A.Finite ∧ B.Finite :=
+  Set.finite_union
+
 end GvcTheory
